@@ -6,6 +6,7 @@ Tie: every comparison, hash relation and sort of generated operand sets is execu
 seeds and compared with the model of that twin (methodC / methodPy).
 Oracle: the statement itself, evaluated in the harness on (name, module) tuples."""
 import itertools
+import re
 
 from .. import core, runner
 
@@ -51,6 +52,7 @@ def gen_script(rnd, tier, cmpx=False):
     n = rnd.randint(6, 10)
     keys = []
     anons = []        # (text, module) of the None-named interfaces
+    mkeys = []        # (name, module) of the classes whose specifications are operands
     for i in range(1, n + 1):
         r = rnd.random()
         if keys and r < 0.3:
@@ -60,7 +62,9 @@ def gen_script(rnd, tier, cmpx=False):
             k = (k0[0], rnd.choice(MODS)) if rnd.random() < 0.5 else (rnd.choice(NAMES), k0[1])
         else:
             k = (rnd.choice(NAMES), rnd.choice(MODS))
-        kind = rnd.choice("IIIIIIMMFPWSB" if i > 2 else "IIIB")
+        kind = rnd.choice("IIIIIIMMMFPWSB" if i > 2 else "IIIB")
+        if i == n and len(mkeys) == 1:
+            kind = "M"            # every script with a class specification has a second one under the same key (below)
         if anons and kind in "IMF" and rnd.random() < 0.3:
             kind = "B"
         if kind == "B":
@@ -84,11 +88,17 @@ def gen_script(rnd, tier, cmpx=False):
             else:
                 keys.append(k)
                 ops[i] = ("I", k)
+            if fk == "I" and kind == "I" and rnd.random() < 0.25:
+                kind = "C" if rnd.random() < 0.4 else "C2"          # with methods of its own (first / second level)
             L.append("def %d %s %s %s" % (i, kind, enc(k[0]), enc(k[1])))
         elif kind == "M":
-            if rnd.random() < 0.3 and keys:
+            if mkeys and (rnd.random() < 0.5 or (i == n and len(mkeys) == 1)):
+                # two DISTINCT classes of one name in one module (a class factory, a re-executed class statement)
+                k = rnd.choice(mkeys)
+            elif rnd.random() < 0.3 and keys:
                 # a class whose specification key collides with nothing but is close to an interface name
                 k = (rnd.choice(NAMES) or "C", rnd.choice(MODS))
+            mkeys.append(k)
             ik = ((k[1] or "?") + "." + (k[0] or "?"), "zope.interface.declarations")
             ops[i] = ("M", ik)
             L.append("def %d M %s %s" % (i, enc(k[0]), enc(k[1])))
@@ -132,6 +142,11 @@ def gen_script(rnd, tier, cmpx=False):
             xs.remove("N")
         L.append("sort " + " ".join(xs))
     return L, ops
+
+
+def for_model(lines):
+    """an interface with methods of its own is, for the comparison model, an interface (same key, same class of operand)"""
+    return [re.sub(r"^(def \d+) C2? ", r"\1 I ", l) for l in lines]
 
 
 def parse_defs(script):
@@ -253,7 +268,7 @@ def oracle(chk, lines, outs, opsets):
         if out.startswith("err") or out.startswith("nonbool") or out == "bad":
             bad.append((i, "%s -> %s" % (line, out)))
             continue
-        if f[0] == "def" and f[2] in "ID":
+        if f[0] == "def" and f[2] in ("I", "D", "C", "C2"):
             want = "ok name=" + ("None" if ops[f[1]][0] == "A" else f[3])
             if out != want:
                 bad.append((i, "%s: the constructor reports %s, expected %s" % (line, out, want)))
@@ -309,7 +324,7 @@ class _Null:
 def run_all(chk, lines, modes=("c", "py"), seeds=SEEDS):
     outs = {}
     divs = []
-    models = {m: core.run_model("order", lines, [m]) for m in modes}
+    models = {m: core.run_model("order", for_model(lines), [m]) for m in modes}
     for m in modes:
         for hs in seeds:
             try:
@@ -414,7 +429,7 @@ def replay(path):
     script = rep["script"]
     mode = rep.get("mode", "c")
     out = core.run_impl("order", script, mode, env_extra={"PYTHONHASHSEED": str(rep.get("hashseed", "0"))})
-    model = core.run_model("order", script, [mode])
+    model = core.run_model("order", for_model(script), [mode])
     bad = 0
     if not script or script[0] != "reset":
         script = ["reset"] + list(script)
